@@ -23,6 +23,7 @@ TTmpl ==
        /\ Ev.product = P                                                   \* the full product, in order
        /\ SeqToSetT(Ev.catalog) = Registered(Ev.lists, U)                   \* exactly the defined combinations
        /\ Len(Ev.catalog) = Cardinality(Registered(Ev.lists, U))            \* each once
+       /\ Ev.other = 0                                                    \* and none with any other method
        /\ \A i \in DOMAIN Ev.calls :                                         \* rows [tuple, code, combination that ran]
              LET o == Outcome(anc, D, Ev.calls[i][1]) IN
              IF o >= 0 THEN Ev.calls[i][2] = 0 /\ Ev.calls[i][3] = P[o + 1]
